@@ -557,7 +557,11 @@ func (r *Root) Finish() *Result {
 	if err != nil {
 		return &Result{Err: errKind(err.Error())}
 	}
-	set := rs.(*commonmodels.ResultSet)
+	return resultOf(rs.(*commonmodels.ResultSet))
+}
+
+// resultOf canonicalises a result set.
+func resultOf(set *commonmodels.ResultSet) *Result {
 	out := &Result{Groups: map[string]map[string][]string{}}
 	for _, s := range set.Series {
 		fm := map[string][]string{}
